@@ -1,40 +1,26 @@
 #!/usr/bin/env python3
-"""Regenerates MANIFEST.json from the table below (kept in one place so that it is always valid)."""
+"""Regenerates MANIFEST.json from tools/checks.d/<Cxx>.json (one small file per claimed check:
+{"level","text","note","technique","design"}) and tools/not_applicable.json ({"Cxx": "reason"}).
+A property with neither is listed under not_applicable as 'not built'."""
 import json
 import os
 import subprocess
 
 HERE = os.path.dirname(os.path.abspath(__file__))
 VERIF = os.path.dirname(HERE)
-
-CHECKS = {
-    "C18": dict(
-        level="exploration",
-        text="Exhaustive enumeration of the finite (token element x mathvariant value x character) table through set_mathml of the real library; "
-             "every output character is judged against the Unicode Character Database (independent oracle), for injectivity, and for being an "
-             "assigned scalar value; the same workload is repeated in an AddressSanitizer build (quick) and additionally a debug-assertion build "
-             "(thorough) because the mapping ends in an unchecked integer-to-char conversion. Exhaustive over the table, so the only residual "
-             "risk is context dependence of the token mapping.",
-        note="Trusts Python's unicodedata (UCD 14.0) and XML parser; token text is read from set_mathml's return value.",
-        technique="exhaustive runtime monitoring with UCD oracle + ASan re-run",
-        design="6/C18"),
-    "C04": dict(
-        level="exploration",
-        text="Runtime monitor over get_spoken_text of the real library: random textbook-grammar expressions carry a distinct decimal literal at every operand "
-             "position (unambiguous histories), generated per session with that session's decimal mark, for every shipped language x style x verbosity and "
-             "random ClearSpeak_* preference subsets; the oracle counts each literal in the speech. Violations are delta-debugged to a minimal witness and "
-             "classified against known_findings.json (five genuine rule/code defects are open there). Sampling, not proof: reach is the generator's grammar "
-             "(33 construct kinds, depth<=4) and the measured rule coverage reported in the evidence.",
-        note="Operands lost inside set_mathml are C01's; set_mathml errors are C08's. Trusts the driver's boundary recording and Python's re module.",
-        technique="runtime monitoring with unique planted literals + delta debugging",
-        design="6/C04"),
-}
-
 NOT_YET = "check not built yet in this phase of the work (build in progress); nothing is claimed for it"
 
 
 def main():
     props = [json.loads(l) for l in open(os.path.join(VERIF, "properties.jsonl"))]
+    checks = {}
+    d = os.path.join(HERE, "checks.d")
+    for f in sorted(os.listdir(d)):
+        if f.endswith(".json"):
+            checks[f[:-5]] = json.load(open(os.path.join(d, f)))
+    na = {}
+    if os.path.exists(os.path.join(HERE, "not_applicable.json")):
+        na = json.load(open(os.path.join(HERE, "not_applicable.json")))
     try:
         hook_commits = subprocess.run(["git", "-C", "/repo", "log", "--format=%h %s", "--grep=^verif-hooks"], capture_output=True, text=True).stdout.strip().splitlines()
     except Exception:
@@ -51,21 +37,21 @@ def main():
             "add_only": True,
         },
         "engines": [
-            {"name": "mcdriver", "path": "harness/", "serves_properties": sorted(CHECKS),
+            {"name": "mcdriver", "path": "harness/", "serves_properties": sorted(checks),
              "kind_free_text": "Rust driver process linked against /repo (feature verif-hooks): JSON-lines op stream in, one event per public API call out; "
                                "catch_unwind + panic hook, sessions = threads, fresh-session reference, parallel barrier mode; built natively, in debug profile, with ASan and with TSan"},
-            {"name": "mon", "path": "mon/", "serves_properties": sorted(CHECKS),
+            {"name": "mon", "path": "mon/", "serves_properties": sorted(checks),
              "kind_free_text": "Python 3 (stdlib only) workload generators, oracles/monitors over the recorded events, shrinker, known-finding classification, evidence writer"},
         ],
         "checks": [],
         "not_applicable": [],
         "notes": "All checks: ./check <Cxx> --tier quick|thorough ; exit 0 held / 1 violation / 2 harness failure (inconclusive). "
-                 "known_findings.json lists genuine defects (open: KNOWN-FINDING line, fixed: replayed as regression). See DESIGN.md.",
+                 "known_findings.json and known_findings.d/*.json list genuine defects (open: KNOWN-FINDING line, fixed: replayed as regression). See DESIGN.md.",
     }
     for p in props:
         pid = p["id"]
-        if pid in CHECKS:
-            c = CHECKS[pid]
+        if pid in checks:
+            c = checks[pid]
             m["checks"].append({
                 "property_id": pid,
                 "quick_cmd": "./check %s --tier quick" % pid,
@@ -78,7 +64,7 @@ def main():
                 "technique": c["technique"],
             })
         else:
-            m["not_applicable"].append({"property_id": pid, "reason": NOT_YET})
+            m["not_applicable"].append({"property_id": pid, "reason": na.get(pid, NOT_YET)})
     with open(os.path.join(VERIF, "MANIFEST.json"), "w") as f:
         json.dump(m, f, indent=1, ensure_ascii=False)
         f.write("\n")
